@@ -694,6 +694,9 @@ func (w *World) doConnect(op Op) {
 }
 
 // resolvePending finds the pending request an "ans" op refers to.
+// anyActor as the actor of an answer op: whichever connection made the request.
+const anyActor = -7
+
 func (w *World) resolvePending(op Op) *PendingReq {
 	n := 0
 	want := actorDec(op.A)
@@ -701,7 +704,7 @@ func (w *World) resolvePending(op Op) *PendingReq {
 		if p.Subject != op.S || p.Query != op.Q {
 			continue
 		}
-		if w.ActorOf(p.CID) != want {
+		if op.A != anyActor && w.ActorOf(p.CID) != want {
 			continue
 		}
 		if n == op.N {
